@@ -471,6 +471,7 @@ inductive EnvOp
   | peerClose (c : Id)
   | dial (l : Id)
   | advance (dt : Int)
+  | connFail (e : Id)      -- the pending connect of establisher `e` fails (SO_ERROR will report it)
   deriving Repr
 
 def envStep (s : St) : EnvOp → St
@@ -489,6 +490,10 @@ def envStep (s : St) : EnvOp → St
     | some l => { s with listeners := upd s.listeners i (some { l with pending := l.pending + 1 }) }
     | none => s
   | .advance dt => { s with clock := s.clock + dt }
+  | .connFail i =>
+    match s.ests i with
+    | some e => { s with ests := upd s.ests i (some { e with connected := false }) }
+    | none => s
 
 /-- creation calls that exist only at top level in the harness -/
 def mkPair (s : St) (i : Id) : St :=
@@ -525,7 +530,7 @@ def nativeOf (s : St) (i : Id) : Native :=
       { inn := wantIn && (c.inbox != 0 || c.peerClosed), out := wantOut,
         hup := c.peerClosed && (c.unix || wantIn || wantOut) }
     | none, some l, _ => { inn := wantIn && l.pending != 0 }
-    | none, none, some e => { out := wantOut && e.connected }
+    | none, none, some _ => { out := wantOut }
     | none, none, none => {}
 
 end Nstd.Server.C14
